@@ -1,5 +1,6 @@
 """C20 — auxiliary structures return exact nearest neighbours and enclosing spheres."""
 import math
+import gridcheck
 from common import *
 from tesslib import Tok
 from props.c01 import run_cells_op
@@ -9,7 +10,7 @@ TRUSTED = [
     "Lean 4.33 kernel; axioms propext, Classical.choice, Quot.sound only (audited per theorem)",
     "models MVoro/Model/Knn.lean (exact grid search) and MVoro/Model/Sphere.lean (certificate checker); theorems MVoro/Proofs/Aux20.lean",
     "translator fragment Space (placement of grid cells in Space::new) with obligation Obl.cellLocAxes_componentwise",
-    "knn_partial: the ingredients (cell lower bound, bounded heap, safe skipping, ring termination bound) are proved; their composition into `knn = k smallest` for the whole loop is not, and is covered by the exact correspondence",
+    "knn: the whole chain is proved for the model (session 5): KnnCorrect.knnLoop_eq_spec for well-formed grids, GridWF / RingWF / KnnFull.knn_mkSpace_eq_spec: knn on the grid Space::new builds (floor binning, row-major cells, Chebyshev rings of get_r_ring) = the brute-force specification for all particles in the half-open box; the model is tied to the code by the exact correspondence below and the Space fragment",
     "welzl_minimal_partial: minimality is proved from a convex-combination certificate; that Welzl's recursion always ends at a certifiable ball is not proved; the driver finds the exact minimal ball by search and reports it only if the proved checker accepts it",
     "float slack: k-NN ties within rounding may be selected/ordered either way; sphere containment and minimality are required within 1e-7 relative (Sphere::contains itself uses a 1e-10 slack)",
 ]
@@ -26,6 +27,7 @@ def run(chk):
     if got is None:
         return
     recs, model = got
+    release_parity(chk, 'knn', recs)
     for r in recs:
         chk.count()
         rp = {'op': 'knn', 'ids': [r.id], 'family': r.family, 'record': r.line[:6000]}
@@ -37,7 +39,16 @@ def run(chk):
         mcw = t.f()
         k, n = t.int(), t.int()
         pts = [t.v3() for _ in range(n)]
-        impl = [int(x) for x in r.res[1:]]
+        gi = r.res.index('GRID') if 'GRID' in r.res else len(r.res)
+        impl = [int(x) for x in r.res[1:gi]]
+        if gi < len(r.res):
+            # the grid itself against the statements proved about the model's grid (GridWF.cellAt / mkSpace_gridOK, RingWF.mem_ring /
+            # nodup_ring / ring_empty): dimensions, row-major cell boxes, every particle inside the box of its cell, get_r_ring =
+            # the cells at Chebyshev index distance r, each once, empty beyond the grid
+            gbad, nrings = gridcheck.check_grid(r.res[gi + 1:], anchor, width, mcw, pts, hex_to_frac)
+            chk.extra_cov['rings_compared_with_chebyshev_spec'] = chk.extra_cov.get('rings_compared_with_chebyshev_spec', 0) + nrings
+            for key, msg in gbad[:2]:
+                chk.violation('impl-vs-oracle', 'grid of Space::new: %s (record %d, %s)' % (msg, r.id, r.family), rp, key='grid-' + key)
         m = model.get(r.id)
         if m is not None and m[0] == 'GRIDBAD':
             # the run-time certificate of KnnCorrect.gridOK_sound failed: the model's grid does not contain / partition its particles
